@@ -141,8 +141,29 @@ func gaTypeStr(e ast.Expr) string {
 		}
 	case *ast.StarExpr:
 		return "*" + gaTypeStr(t.X)
+	case *ast.SelectorExpr:
+		if id, ok := t.X.(*ast.Ident); ok {
+			return id.Name + "." + t.Sel.Name
+		}
+	case *ast.MapType:
+		// map[K]struct{} with an integer key is a set of integers
+		if st, ok := t.Value.(*ast.StructType); ok && (st.Fields == nil || len(st.Fields.List) == 0) {
+			if k := gaTypeStr(t.Key); gaIsInt(k) {
+				return "set[" + k + "]"
+			}
+		}
 	}
 	return "?"
+}
+
+// gaEmptyStruct: the expression struct{}{}
+func gaEmptyStruct(e ast.Expr) bool {
+	cl, ok := e.(*ast.CompositeLit)
+	if !ok || len(cl.Elts) != 0 {
+		return false
+	}
+	st, ok := cl.Type.(*ast.StructType)
+	return ok && (st.Fields == nil || len(st.Fields.List) == 0)
 }
 
 // kind returns the GoLang.ikind of an integer type
@@ -519,6 +540,11 @@ func (t *gaTr) expr(e ast.Expr) (string, string) {
 		return "(ESlice " + ca + " " + lo + " " + hi + ")", ta
 	case *ast.CallExpr:
 		return t.call(x)
+	case *ast.CompositeLit:
+		if ty := gaTypeStr(x.Type); strings.HasPrefix(ty, "set[") && len(x.Elts) == 0 {
+			return "(EMakeList (EInt 0) VUnset)", ty // empty set
+		}
+		return gaUnsE("composite literal " + gaSrc(x)), "?"
 	}
 	return gaUnsE(fmt.Sprintf("expression %T", e)), "?"
 }
@@ -639,6 +665,21 @@ func (t *gaTr) call(x *ast.CallExpr) (string, string) {
 			}
 		}
 		return gaUnsE("conversion " + gaSrc(x)), "?"
+	}
+	// buf.Buffer(n) for a parameter buf of type encoding.Bufferer: "a []byte of length n with
+	// whatever contents".  The parameter is modelled as those contents (an arbitrary byte string,
+	// universally quantified in the theorem, at least n long) and the call as buf[:n].
+	if sel, ok := x.Fun.(*ast.SelectorExpr); ok && sel.Sel.Name == "Buffer" && len(x.Args) == 1 {
+		if id, ok := sel.X.(*ast.Ident); ok {
+			if v := t.lookup(id.Name); v != nil && v.typ == "encoding.Bufferer" && v.idx < t.nparams {
+				if p, ok := t.imports["encoding"]; ok && p == gaModule+"pkg/encoding" {
+					cn, tn := t.expr(x.Args[0])
+					if gaIsInt(tn) || tn == "untyped" {
+						return "(ESlice " + t.evar(v) + " None (Some " + cn + "))", "[]uint8"
+					}
+				}
+			}
+		}
 	}
 	// standard library primitives
 	if sel, ok := x.Fun.(*ast.SelectorExpr); ok {
@@ -794,6 +835,36 @@ func (t *gaTr) assign(s *ast.AssignStmt) string {
 		return gaSeq(append(pre, "(SAssign ["+l+"] ["+c+"])"))
 	}
 	if s.Tok != token.ASSIGN && s.Tok != token.DEFINE {
+		return gaUnsS("assignment " + gaSrc(s))
+	}
+	// sets (map[K]struct{} held in a LOCAL variable): `_, ok := m[k]` and `m[k] = struct{}{}`
+	if len(s.Lhs) == 2 && len(s.Rhs) == 1 {
+		if ix, ok := s.Rhs[0].(*ast.IndexExpr); ok {
+			if b, ok := s.Lhs[0].(*ast.Ident); ok && b.Name == "_" {
+				var cm, tm, ck, tk string
+				pre := t.withPre(func() { cm, tm = t.expr(ix.X); ck, tk = t.expr(ix.Index) })
+				if strings.HasPrefix(tm, "set[") && (tk == tm[4:len(tm)-1] || tk == "untyped") {
+					ls, ok := t.targets(&ast.AssignStmt{Lhs: s.Lhs[1:], Tok: s.Tok, Rhs: s.Rhs}, []string{"bool"})
+					if ok {
+						return gaSeq(append(pre, "(SAssign "+gaList(ls)+" [(EHas "+cm+" "+ck+")])"))
+					}
+				}
+				return gaUnsS("comma-ok form " + gaSrc(s))
+			}
+		}
+	}
+	if s.Tok == token.ASSIGN && len(s.Lhs) == 1 && len(s.Rhs) == 1 && gaEmptyStruct(s.Rhs[0]) {
+		if ix, ok := s.Lhs[0].(*ast.IndexExpr); ok {
+			if id, ok := ix.X.(*ast.Ident); ok {
+				if v := t.lookup(id.Name); v != nil && strings.HasPrefix(v.typ, "set[") && v.idx >= t.nparams {
+					var ck, tk string
+					pre := t.withPre(func() { ck, tk = t.expr(ix.Index) })
+					if tk == v.typ[4:len(v.typ)-1] || tk == "untyped" {
+						return gaSeq(append(pre, fmt.Sprintf("(SAssign [LVar %d (*%s*)] [(EAppend %s %s)])", v.idx, v.name, t.evar(v), ck)))
+					}
+				}
+			}
+		}
 		return gaUnsS("assignment " + gaSrc(s))
 	}
 	// x, y := f(..) for a translated f
